@@ -135,13 +135,171 @@ def i_private(F, res):
         res.add([ok("I-PRIVATE", key3, w, "every aggregate lives in model/assets.rs")])
 
 
+def _param_of_place(f, du, pl, nparams):
+    """which parameter's *own* Option a discriminant / payload read looks at: follows tuple fields and plain copies back to an
+    argument local; returns (param, direct) where direct=False means a call result stands in between (e.g. Option::filter)"""
+    local = pl["l"]
+    proj = [q for q in pl["p"] if q[0] != "d"]
+    idx = None
+    if proj and proj[0][0] == "f" and str(proj[0][1]).isdigit():
+        idx = int(proj[0][1])
+    seen = set()
+    direct = True
+    while local not in seen:
+        seen.add(local)
+        if 1 <= local <= nparams and idx is None:
+            return local, direct
+        defs = du.defs.get(local, [])
+        if len(defs) != 1:
+            return None, direct
+        d = defs[0]
+        if d[0] == "call":
+            direct = False
+            t = d[3]
+            if not t["args"]:
+                return None, direct
+            a = mir.op_place(t["args"][0])
+            if a is None:
+                return None, direct
+            local = a["l"]
+            continue
+        rv = d[3]["rv"]
+        if rv["k"] == "agg" and "tuple" in rv and idx is not None:
+            a = mir.op_place(rv["ops"][idx])
+            if a is None:
+                return None, direct
+            local, idx = a["l"], None
+        elif rv["k"] in ("use", "cast"):
+            a = mir.op_place(rv["op"])
+            if a is None or [q for q in a["p"] if q[0] != "d"]:
+                return None, direct
+            local = a["l"]
+        elif rv["k"] == "ref":
+            a = rv["pl"]
+            if [q for q in a["p"] if q[0] != "d"]:
+                return None, direct
+            local = a["l"]
+        else:
+            return None, direct
+    return None, direct
+
+
+def i_class(F, res):
+    """from_asset(policy, name, amount) must send each of the four presence combinations to the constructor of its own
+    class - lovelace only when *both* are absent - and must test the presence of the caller's policy / name themselves (an
+    empty byte string is a policy / name of length 0, not an absent one)."""
+    f = F.fn(CA + "::from_asset")
+    du = mir.DefUse(f)
+    want = {"from_naked_amount": {1: "None", 2: "None"}, "from_named_asset": {1: "None", 2: "Some"}, "from_defined_asset": {1: "Some"}}
+    names = {1: "policy", 2: "name"}
+    reached = {}
+    indirect = []
+    seen = set()
+    st = [(0, (None, None))]
+    while st:
+        bi, state = st.pop()
+        if (bi, state) in seen:
+            continue
+        seen.add((bi, state))
+        b = f["blocks"][bi]
+        if b["cleanup"]:
+            continue
+        dmap = {}
+        for s in b["s"]:
+            if s["rv"]["k"] == "discr":
+                prm, direct = _param_of_place(f, du, s["rv"]["pl"], 2)
+                if prm is not None:
+                    dmap[s["lhs"]["l"]] = prm
+                    if not direct:
+                        indirect.append((s["line"], prm))
+        t = b["t"]
+        if t["k"] == "call":
+            c = (t.get("callee") or "").split("::")[-1]
+            if c in want and (t.get("callee") or "").startswith(CA):
+                reached.setdefault(c, set()).add((state, t["line"]))
+            if t.get("t") is not None:
+                st.append((t["t"], state))
+        elif t["k"] == "switch":
+            pl = mir.op_place(t["discr"])
+            prm = dmap.get(pl["l"]) if pl is not None else None
+            if prm is not None:
+                for v, tb in t["targets"]:
+                    ns = list(state)
+                    ns[prm - 1] = "None" if v == 0 else "Some"
+                    st.append((tb, tuple(ns)))
+                have = {v for v, _ in t["targets"]}
+                for v in (0, 1):
+                    if v not in have:
+                        ns = list(state)
+                        ns[prm - 1] = "None" if v == 0 else "Some"
+                        st.append((t["otherwise"], tuple(ns)))
+            else:
+                for n in mir.block_succs(b):
+                    st.append((n, state))
+        else:
+            for n in mir.block_succs(b):
+                st.append((n, state))
+    if not reached:
+        raise BrokenCheck("from_asset no longer calls the class constructors")
+    key = f["path"] + "|each presence combination goes to its own class"
+    bad = []
+    for c, states in sorted(reached.items()):
+        for state, line in sorted(states, key=lambda x: str(x)):
+            for prm, val in want[c].items():
+                got = state[prm - 1]
+                if got != val:
+                    bad.append((line, "%s(..) is reached with %s = %s" % (c, names[prm], got or "untested (present or absent)")))
+    if indirect:
+        bad.append((indirect[0][0], "the presence test is not on the caller's own `%s` (a call such as Option::filter stands in between: e.g. an empty byte string is turned into an absent one)" % names[indirect[0][1]]))
+    if bad:
+        res.add([finding("I-CLASS", key, where(f, bad[0][0]), "; ".join(sorted({b2 for _, b2 in bad})) + ": two different asset classes are merged by the constructor, so equal-looking values built through different constructors differ and the expression round trip changes the value")])
+    else:
+        res.add([ok("I-CLASS", key, where(f), "naked <- (None, None); named <- (None, Some); defined <- (Some, _); tests are on the parameters themselves")])
+    # payload order: defined(policy, name): arg0 from policy's payload, arg1 from name's payload
+    key2 = f["path"] + "|payloads are passed in (policy, name) order"
+    swapped = False
+    for bi, t in mir.calls(f):
+        c = (t.get("callee") or "")
+        if c == CA + "::from_defined_asset":
+            for ai, prm in ((0, 1), (1, 2)):
+                for o in mir.provenance(f, du, t["args"][ai]):
+                    if o.kind in ("local", "arg", "agg"):
+                        # find which parameter the payload belongs to
+                        pass
+                pl = mir.op_place(t["args"][ai])
+                # walk back to the `as Some.0` read
+                cur = pl
+                hops = 0
+                while cur is not None and hops < 6:
+                    hops += 1
+                    defs = du.defs.get(cur["l"], [])
+                    if len(defs) != 1 or defs[0][0] == "call":
+                        break
+                    rv = defs[0][3]["rv"]
+                    src = rv.get("pl") if rv["k"] == "ref" else mir.op_place(rv.get("op")) if rv["k"] in ("use", "cast") else None
+                    if src is None:
+                        break
+                    if any(q[0] in ("dc", "f") for q in src["p"]):
+                        got, _ = _param_of_place(f, du, {"l": src["l"], "p": [q for q in src["p"] if not (q[0] == "dc" or (q[0] == "f" and len(q) > 3 and q[3] == "Some"))][:1]}, 2)
+                        if got is not None and got != prm:
+                            swapped = True
+                        break
+                    cur = src
+    if swapped:
+        res.add([finding("I-CLASS", key2, where(f), "from_defined_asset receives the name where the policy belongs (or vice versa)")])
+    else:
+        res.add([ok("I-CLASS", key2, where(f), "policy payload -> first argument, name payload -> second")])
+
+
 def run(ctx):
     F = ctx.F
     res = Result("C15")
     res.rule("I-NORMAL", "every construction of CanonicalAssets establishes the zero-free normal form")
     res.rule("I-PRIVATE", "nobody outside assets.rs can build or mutate the map")
+    res.rule("I-CLASS", "from_asset sends each (policy present?, name present?) combination to the constructor of its own asset class")
     i_normal(F, res)
     i_private(F, res)
+    i_class(F, res)
     if ctx.tier == "thorough":
         from ..common import run_witnesses
         passed, failed, tail = run_witnesses()
